@@ -15,7 +15,10 @@ def c10_case(draw):
     if draw(st.integers(0, 11)) == 0:
         return {'kind': 'bilinear', 'which': draw(st.sampled_from(['dd_mul', 'dd_matmul', 'rr_mul', 'rr_matmul', 'ldr_r_mul',
                                                                     'ldr_r_matmul', 'dro_adapt_r_mul', 'dro_adapt_r_matmul',
-                                                                    'dd_sub_mul', 'rr_sub_mul', 'dro_adaptslice_r_mul', 'dro_adaptslice_r_matmul'])),
+                                                                    'dd_sub_mul', 'rr_sub_mul', 'dro_adaptslice_r_mul', 'dro_adaptslice_r_matmul',
+                                                                    'dro_adapt_derived', 'dro_adapt_derived', 'ldr_derived', 'ldr_derived'])),
+                'derived': draw(st.sampled_from(['sum', 'sum_axis', 'neg', 'scale', 'add_const', 'add_static', 'slice', 'index_list', 'reshape',
+                                                 'T', 'flatten', 'ones_matmul', 'rsub', 'concat', 'sum_of_entries'])),
                 'n': draw(st.integers(1, 3)), 'use': draw(st.sampled_from(['constr', 'constr', 'obj'])),
                 'front': draw(st.sampled_from(['ro', 'dro']))}
     if draw(st.integers(0, 5)) == 0:
@@ -396,6 +399,10 @@ def solver_for(case):
     return (None, 'lp') if layer == 'lp' else (eco_solver, 'conic')
 
 
+class DerivationUnsupported(Exception):
+    """the derived expression itself cannot be built (e.g. RoAffine has no flatten): nothing to judge"""
+
+
 def bilinear(case):
     """each of these must raise"""
     from rsome import ro, dro
@@ -416,6 +423,39 @@ def bilinear(case):
         if w.startswith('ldr'):
             x = m.ldr(n)
             x.adapt(z)
+    if w.endswith('_derived'):
+        # an expression derived from an affinely adaptive decision (dro) / a decision rule (ro) is still adaptive: its product with
+        # a random variable must be refused whatever operation produced it
+        import rsome as rso
+        n2 = max(n, 2)
+        if w.startswith('dro'):
+            m = dro.Model(2)
+            x, y = m.dvar(n2), m.dvar(n2)
+            z = m.rvar(n2)
+            x.adapt(z)
+        else:
+            m = ro.Model()
+            y = m.dvar(n2)
+            z = m.rvar(n2)
+            x = m.ldr(n2)
+            x.adapt(z)
+        d = case.get('derived', 'sum')
+        e = {'sum': lambda: x.sum(), 'sum_axis': lambda: x.reshape((1, n2)).sum(axis=0), 'neg': lambda: -x, 'scale': lambda: 2.0 * x,
+             'add_const': lambda: x + 1.0, 'add_static': lambda: x + y, 'slice': lambda: x[:1], 'index_list': lambda: x[[0, n2 - 1]],
+             'reshape': lambda: x.reshape((n2, 1)), 'T': lambda: x.reshape((1, n2)).T, 'flatten': lambda: x.reshape((1, n2)).flatten(),
+             'ones_matmul': lambda: np.ones(n2) @ x, 'rsub': lambda: 1.0 - x, 'concat': lambda: rso.concat((x, y)),
+             'sum_of_entries': lambda: x[0] + x[n2 - 1]}[d]
+        try:
+            e = e()
+        except Exception as ex:
+            raise DerivationUnsupported(repr(ex))
+        size = int(np.prod(e.shape)) if hasattr(e, 'shape') and e.shape != () else 1
+        prod = e * z[0]
+        if case['use'] == 'obj':
+            m.min(prod.sum() if size > 1 else prod)
+        else:
+            m.st(prod <= 1)
+        return m
     if w in ('dd_mul',):
         e = x * y
     elif w == 'dd_matmul':
@@ -447,7 +487,8 @@ class C10(Prop):
             'steps from {scale by 2, 0.5, -1, -3, 0, 3 from the left or right; negate; add / subtract a constant (Python or NumPy '
             'scalar) or an affine expression from the left or right; reversed subtraction} x comparison (<=, >=, == with the other '
             'side on either side) or use as min/max objective; plus bilinear products (decision x decision, random x random, LDR x '
-            'random, affinely adaptive dro decision x random). Oracle: an independent curvature calculus over k*f + g gives the '
+            'random, affinely adaptive dro decision x random, and products of a random variable with an expression derived from an adaptive '
+            'decision / decision rule by 15 operations: sum, axis sum, negation, scaling, offsets, slices, index lists, reshape, T, flatten, ones@, concat). Oracle: an independent curvature calculus over k*f + g gives the '
             'expected accept/reject; expected reject => RSOME must raise by the time st()/min()/max() returns; accepted => the '
             'compiled model with the variables pinned at sample points must be feasible exactly when the written inequality holds '
             'under NumPy (margin 0.05; for random pieces: the finite-sum expectation, or the closed-form sup/inf over the box), and an accepted objective must evaluate to the NumPy value. Over-rejection is counted, not '
@@ -464,13 +505,15 @@ class C10(Prop):
 
     def check(self, case):
         if case['kind'] == 'bilinear':
-            labels = ['bilinear:' + case['which'], 'use:' + case['use']]
+            labels = ['bilinear:' + case['which'] + (':' + case.get('derived', '') if case['which'].endswith('_derived') else ''), 'use:' + case['use']]
             try:
                 with quiet():
                     m = bilinear(case)
+            except DerivationUnsupported:
+                return Outcome.ok(False, labels + ['derivation_unsupported'])
             except Exception as ex:
                 return Outcome.ok(True, labels + ['raised:' + type(ex).__name__])
-            return Outcome.fail('bilinear_accepted:' + case['which'], 'a bilinear product (%s) was accepted as %s' % (case['which'], case['use']), labels)
+            return Outcome.fail('bilinear_accepted:' + case['which'] + (':' + case.get('derived', '') if case['which'].endswith('_derived') else ''), 'a bilinear product (%s%s) was accepted as %s' % (case['which'], ' via ' + case.get('derived', '') if case['which'].endswith('_derived') else '', case['use']), labels)
         if case['kind'] == 'pw':
             return pw_check(case)
         exp = expected(case)
@@ -547,6 +590,35 @@ class C10(Prop):
         if checked:
             labels.append('semantic_checked')
         return Outcome.ok(nt and checked > 0, labels)
+
+
+    def run_enumerations(self, tier, seed):
+        """the whole catalogue of bilinear products (finite): every pattern x use x size, derived expressions x 15 operations"""
+        from vf.core import case_hash
+        plain = ['dd_mul', 'dd_matmul', 'rr_mul', 'rr_matmul', 'ldr_r_mul', 'ldr_r_matmul', 'dro_adapt_r_mul', 'dro_adapt_r_matmul',
+                 'dd_sub_mul', 'rr_sub_mul', 'dro_adaptslice_r_mul', 'dro_adaptslice_r_matmul']
+        ops = ['sum', 'sum_axis', 'neg', 'scale', 'add_const', 'add_static', 'slice', 'index_list', 'reshape', 'T', 'flatten', 'ones_matmul',
+               'rsub', 'concat', 'sum_of_entries']
+        cases = [{'kind': 'bilinear', 'which': w, 'n': n, 'use': use, 'front': fr, 'derived': 'sum'}
+                 for w in plain for n in (1, 2, 3) for use in ('constr', 'obj') for fr in ('ro', 'dro')]
+        cases += [{'kind': 'bilinear', 'which': w, 'n': 2, 'use': use, 'front': 'dro' if w.startswith('dro') else 'ro', 'derived': d}
+                  for w in ('dro_adapt_derived', 'ldr_derived') for d in ops for use in ('constr', 'obj')]
+        failures, labels, nt, samples = [], {}, [], []
+        for case in cases:
+            out = self.check(case)
+            for lb in out.labels:
+                if lb.startswith(('raised:', 'derivation_unsupported')):
+                    labels['enum:' + lb] = labels.get('enum:' + lb, 0) + 1
+            if out.status == 'fail':
+                if not any(f['bucket'] == 'enum:' + out.bucket for f in failures):
+                    failures.append({'bucket': 'enum:' + out.bucket, 'msg': out.msg, 'case': case, 'index': -1, 'shard': 0, 'count': 1})
+            elif out.nontrivial:
+                nt.append(case_hash(case))
+                if len(samples) < 2:
+                    samples.append(case)
+        labels['enumerated_bilinear_cases'] = len(cases)
+        return {'evaluations': len(cases), 'labels': labels, 'failures': failures, 'harness_errors': [], 'nt_hashes': nt, 'samples': samples,
+                'coverage': {'exhaustive_bilinear_catalogue': '%d cases' % len(cases)}}
 
 
 PROP = C10()
